@@ -11,7 +11,7 @@ SPECS = {
     "C06": "RevocationBitmap(+Trace)", "C07": "JwtClaims", "C08": "JwsProduce",
     "C09": "StorageTxn (+_prefix.cfg), MethodDigest, Lifecycle", "C10": "DidSyntax, MCDidSyntax, DidSyntaxTrace",
     "C11": "JoseHeaderPolicy", "C12": "StatusList(+Trace)", "C13": "Timestamp, MCTimestamp, TimestampTrace",
-    "C14": "StateMetadata", "C15": "KeyStore(+Trace), KeyIdStore(+Trace), MCKeyIdStore (+_nonatomic.cfg); both also over StrongholdStorage",
+    "C14": "StateMetadata (+ IotaLedger)", "C15": "KeyStore(+Trace), KeyIdStore(+Trace), MCKeyIdStore (+_nonatomic.cfg), proofs/KeyIdStoreInd (Apalache, TLAPS); drivers also over StrongholdStorage",
     "C16": "SdJwtValidation (+ JptFlow, TimeframeRevocation, SdJwtVcType, SdJwtVcFlow)", "C17": "IotaDid, MCIotaDid", "C18": "Jwk", "C19": "OrderedSet, OneOrSet, OneOrMany (+Trace each)",
     "C20": "Resolver, MCResolver",
 }
